@@ -5,7 +5,13 @@ aggregator's merge in intra_node_aggregation() (ncmpio_intra_node.c).  Each loop
 body computes `gap = off[i] + len[i] - off[j]`), evaluated by the analyser's interpreter for every small sorted
 segment list of a bounded family, and its output compared with an independent model: the output segments are sorted
 and disjoint, cover exactly the bytes the inputs cover, and take every byte from the lowest-indexed input segment
-that covers it.  Bounded (not exhaustive): up to 4 segments, offsets < 7, lengths 1..4, two buffer layouts."""
+that covers it.  Bounded (not exhaustive): up to 4 segments, offsets < 7, lengths 1..4, two buffer layouts.
+
+Read semantics (`check(..., reads=True)`, merge_requests only): the same loop serves the get requests.  There every
+input segment has its own buffer and each of them must receive its file bytes: after the read through the merged
+segments and after the copies the function records for its caller (the list of (source, destination, length) entries
+written inside the loop, located structurally; none on a tree that has no such list) every byte of every input segment
+must sit at that segment's own buffer address."""
 import itertools
 import concrete
 from facts import walk, strip, strip_pre, canon, const_value
@@ -77,7 +83,42 @@ def model(segs, addrs):
     return want
 
 
-def check(ctx, fn, rule, layout):
+def find_copy_list(fn, lp, layout):
+    """the (array, count, src-field, dst-field, len-field) of the copy records the loop writes, or None.
+    A record store has the shape (*X)[*N].F = ... with X a parameter other than the segment array; the field whose
+    value mentions segment j's buffer address only is the destination, the one mentioning segment i's the source."""
+    seg_arr = layout["off"].split("[")[0]
+    stores = {}
+    for blk, i, e in lp.body_elems(ext=False):
+        if e.get("k") != "asg" or e.get("op") != "=":
+            continue
+        l = strip(e["a"])
+        if l.get("k") != "mem":
+            continue
+        b = strip(l.get("b") or l.get("e") or {})
+        if not isinstance(b, dict) or b.get("k") != "idx":
+            continue
+        arr, cnt = canon(b["b"]), canon(b["i"])
+        if arr.replace("(", "").replace(")", "") == seg_arr.replace("(", "").replace(")", ""):
+            continue
+        stores.setdefault((arr, cnt), {}).setdefault(l.get("f"), []).append(canon(e["b"]))
+    for (arr, cnt), fields in stores.items():
+        src = dst = ln = None
+        for f, rhss in fields.items():
+            t = rhss[0]
+            has_i, has_j = "[i].buf_addr" in t, "[j].buf_addr" in t
+            if has_i and not has_j:
+                src = f
+            elif has_j and not has_i:
+                dst = f
+            elif not has_i and not has_j:
+                ln = f
+        if src and dst and ln:
+            return arr, cnt, src, dst, ln
+    return None
+
+
+def check(ctx, fn, rule, layout, reads=False):
     """layout: dict with the env names of the three arrays and the count, e.g.
        {"off": "*segs[%d].off", "len": "*segs[%d].len", "addr": "*segs[%d].buf_addr", "n": "*nsegs"}"""
     lp, gap = find_merge_loop(fn)
@@ -88,6 +129,8 @@ def check(ctx, fn, rule, layout):
         raise AnalysisBroken("%s: initialisation of the merge loop not found" % fn.name)
     cells = 0
     bad = None
+    copy = find_copy_list(fn, lp, layout) if reads else None
+    ptr_params = [p["n"] for p in fn.params if fn.type(p["t"]).get("k") == "ptr"]
     for segs in inputs(getattr(ctx, 'tier', 'quick') == 'thorough'):
         for mode in ("contig", "scattered"):
             if mode == "contig":
@@ -99,6 +142,11 @@ def check(ctx, fn, rule, layout):
                 addrs = [100 + 10 * (len(segs) - k) for k in range(len(segs))]
             env = {"$dyn": True, layout["n"]: len(segs), "$impl": {"MPI_Aint_add": lambda x, y: x + y,
                                                                    "MPI_Aint_diff": lambda x, y: x - y}}
+            # pointer parameters other than the segment array: NULL for the write form, present for the read form;
+            # the I/O buffer base is address 0, so that buffer addresses are the segment-relative ones
+            for pn in ptr_params:
+                env.setdefault(pn, 1 if reads else 0)
+                env.setdefault("*" + pn, 0)
             for k, ((o, l), a) in enumerate(zip(segs, addrs)):
                 env[layout["off"] % k] = o
                 env[layout["len"] % k] = l
@@ -138,15 +186,49 @@ def check(ctx, fn, rule, layout):
                     extra, miss = sorted(set(got) - set(want)), sorted(set(want) - set(got))
                     why = "file bytes %s are written although no request addresses them" % extra if extra else \
                         "file bytes %s addressed by the requests are not written" % miss
-                else:
+                elif not reads:
                     for p in sorted(want):
                         if got[p] != want[p]:
                             why = "file byte %d is taken from buffer address %d, the first request covering it supplies %d" % (p, got[p], want[p])
                             break
+                else:
+                    # memory after the read through the merged segments, then after the recorded copies in order
+                    mem = {a: p for p, a in got.items()}
+                    if copy is not None:
+                        arr, cnt, fs, fd, fl = copy
+                        base = arr.replace("(", "").replace(")", "")
+                        nd = env.get(cnt.replace("(", "").replace(")", ""), 0)
+                        for q in range(nd):
+                            src, dst, ln = (env.get("%s[%d].%s" % (base, q, f)) for f in (fs, fd, fl))
+                            if src is None or dst is None or ln is None or ln < 0:
+                                why = "copy record %d is (%s, %s, %s)" % (q, src, dst, ln)
+                                break
+                            vals = [mem.get(src + t) for t in range(ln)]
+                            for t in range(ln):
+                                mem[dst + t] = vals[t]
+                    if why is None:
+                        for k2, ((o, l), a) in enumerate(zip(segs, addrs)):
+                            for t in range(l):
+                                if mem.get(a + t) != o + t:
+                                    why = "read request segment %d (file bytes %d..%d, buffer address %d): its byte for file offset %d %s" % (
+                                        k2, o, o + l - 1, a, o + t,
+                                        "is never delivered (the overlapped region is read into another request's buffer only)"
+                                        if mem.get(a + t) is None else "receives file byte %s" % mem.get(a + t))
+                                    break
+                            if why:
+                                break
             if why and bad is None:
                 bad = (segs, addrs, why)
-    inst = "%s:merge" % fn.name
-    if bad:
+    inst = "%s:%s" % (fn.name, "readmerge" if reads else "merge")
+    if bad and reads:
+        segs, addrs, why = bad
+        ctx.fail(rule, fn.name, "readmerge", "get requests with the sorted segments %s (buffer addresses %s): %s" % (segs, addrs, why),
+                 fn=fn, line=lp.head.tl or fn.line, inst=inst, detail={"segments": segs, "addresses": addrs,
+                                                                       "copy_list": list(copy) if copy else None})
+    elif reads:
+        ctx.ok(rule, inst, "%d segment lists: every input segment's buffer holds its file bytes after the read and the %s" % (
+            cells, "recorded copies" if copy else "(absent) copies"))
+    elif bad:
         segs, addrs, why = bad
         ctx.fail(rule, fn.name, "merge", "merging the sorted segments %s (buffer addresses %s): %s" % (segs, addrs, why),
                  fn=fn, line=lp.head.tl or fn.line, inst=inst, detail={"segments": segs, "addresses": addrs})
